@@ -10,6 +10,8 @@ import (
 	"hash/fnv"
 	"os"
 	"path/filepath"
+	"runtime"
+	"runtime/pprof"
 	"sort"
 	"strconv"
 	"sync"
@@ -272,6 +274,18 @@ func (r *Run) Finish() int {
 		cov["states"] = r.States.Load()
 		cov["transitions"] = r.Transitions.Load()
 		cov["traces_validated_against_impl"] = r.Validated.Load()
+	}
+	{
+		var ms runtime.MemStats
+		runtime.ReadMemStats(&ms)
+		cov["process_goroutines_at_end"] = runtime.NumGoroutine()
+		if p := os.Getenv("VERIF_GOROUTINE_DUMP"); p != "" {
+			if f, err := os.Create(p); err == nil {
+				_ = pprof.Lookup("goroutine").WriteTo(f, 1)
+				_ = f.Close()
+			}
+		}
+		cov["process_heap_sys_mb"] = ms.Sys >> 20
 	}
 	if len(r.caps) > 0 {
 		cov["caps_hit"] = r.caps
